@@ -12,7 +12,7 @@
 (* Gen): C.checks = the property ids the case asks for, C.nsubj / C.nbeh = *)
 (* how many hot subjects exist.                                            *)
 (***************************************************************************)
-EXTENDS RxRef
+EXTENDS RxRef, FiniteSets
 
 GetB(s, i) == IF i >= 1 /\ i <= Len(s) THEN s[i] ELSE FALSE
 GetI(s, i) == IF i >= 1 /\ i <= Len(s) THEN s[i] ELSE 0
@@ -29,6 +29,7 @@ CntFin == 4
 CntDefer == 5
 CntFn == 6
 CntPull == 7
+CntConv == 8      \* IntoIterator::into_iter of the counting from_iter source
 
 Mon0 == [ np     |-> 0,       \* probes created so far
           term   |-> <<>>,    \* probe -> saw a terminal
@@ -84,7 +85,8 @@ NewHandle(m, root) ==
 
 (* --- one probe notification --- *)
 LogOne(m, e, C) ==
-  IF e.t = "I"      \* C16: the counting iterator source was pulled: never after the (first) subscriber has seen its terminal
+  IF e.t = "F" THEN m      \* the finalizer callback ran (its place in the step is judged by FinOrder)
+  ELSE IF e.t = "I"      \* C16: the counting iterator source was pulled: never after the (first) subscriber has seen its terminal
   THEN Flag(m, GetB(m.term, 1), "C16", C.checks)
   ELSE IF e.t = "R" \/ e.t = "U"   \* C19: the body of harness task (e.p - 100) ran with sequence number e.v / its subscription was unsubscribed
   THEN LET k == e.p - 100
@@ -184,6 +186,11 @@ GroupCheck(m, C) ==
      (* flattening the groups back reproduces the source sequence *)
      /\ (x > 0 /\ Op(x) = "flat" /\ Op(S1(x)) = "group_by" /\ PA(x) = 999) =>
         GetS(m.plog, p) = MsgsOf(Ref(S1(S1(x)), m.g, m.h0[h], hi, {}))
+
+(* the source at the bottom of a single-input chain; does the chain contain operator o *)
+RECURSIVE BottomOf(_), NumOp(_, _)
+BottomOf(x) == IF S1(x) = 0 THEN x ELSE BottomOf(S1(x))
+NumOp(x, o) == IF x = 0 THEN 0 ELSE (IF Op(x) = o THEN 1 ELSE 0) + NumOp(S1(x), o)
 
 (* --- C07: scheduler-moving operators preserve the source's sequence and never deliver early --- *)
 MovingOps == {"delay", "observe_on", "delay_subscription", "subscribe_on"}
@@ -428,15 +435,26 @@ MonStep(m0, step, C) ==
       (* C12: peek() is the most recent value *)
       r5 == Flag(r4, s.k = "bpeek" /\ o.fault = "" /\ o.ret # BLatest(r4.g, Len(r4.g), s.a), "C12", checks)
       (* C15: the finalizer has run exactly once per subscription that was completed, failed or unsubscribed *)
-      r6 == Flag(r5, o.fault = "" /\ o.cnt[CntFin] # CountTrue(r5.trig), "C15", checks)
+      r6a == Flag(r5, o.fault = "" /\ o.cnt[CntFin] # CountTrue(r5.trig), "C15", checks)
+      (* ... right after the event, never before it: when a terminal triggers it, the subscriber has seen that terminal first *)
+      (* (the suites of C15 have finalize as the outermost operator; the callback leaves an "F" entry in the common log)      *)
+      nTermBefore(i) == Cardinality({j \in 1..(i - 1) : o.log[j].p > 0 /\ o.log[j].t \in {"E", "C"}})
+      nFinUpTo(i) == Cardinality({j \in 1..i : o.log[j].t = "F"})
+      r6 == Flag(r6a, s.k # "unsub" /\ \E i \in 1..Len(o.log) : o.log[i].t = "F" /\ nTermBefore(i) < nFinUpTo(i), "C15", checks)
       (* C13: building does no work; every subscription of a cold pipeline observes the same *)
       norm == [i \in 1..Len(o.log) |-> <<IF o.log[i].p = 0 THEN 0 ELSE o.log[i].p - m.np, o.log[i].t, o.log[i].v>>]
       delta == [i \in 1..NCnt |-> o.cnt[i] - m.lastcnt[i]]
       r7 == IF "C13" \notin checks \/ o.fault # "" THEN r6
             ELSE IF s.k = "build" THEN Flag(r6, o.log # <<>> \/ o.cnt # Cnt0, "C13", checks)
             ELSE IF s.k = "sub" /\ s.b = 0 THEN
-              (IF r6.first = <<>> THEN [r6 EXCEPT !.first = <<norm, delta>>]
-               ELSE Flag(r6, r6.first # <<norm, delta>>, "C13", checks))
+              (* exactly once per subscription: the closure of of_fn / start / defer is called, the counting from_iter source is converted *)
+              LET src == BottomOf(s.a)
+                  once == /\ (Op(src) \in {"of_fn", "start"} => delta[CntFn] = 1)
+                          /\ (Op(src) = "from_iter" /\ PB(src) = 7 => delta[CntConv] = 1)
+                          /\ delta[CntDefer] = NumOp(s.a, "defer")
+                  r6o == Flag(r6, ~once, "C13", checks) IN
+              (IF r6o.first = <<>> THEN [r6o EXCEPT !.first = <<norm, delta>>]
+               ELSE Flag(r6o, r6o.first # <<norm, delta>>, "C13", checks))
             ELSE r6
       (* C11: publish does not subscribe its source before connect(); share subscribes it exactly once *)
       r8 == Flag(r7, o.fault = "" /\ ((~r7.connected /\ o.cnt[CntDefer] # 0) \/ (r7.connected /\ o.cnt[CntDefer] # 1)), "C11", checks)
